@@ -182,6 +182,27 @@ func checkMinMaxDist2(ctx *Ctx, r *Report, fn *ssa.Function, dim int, key string
 		_, ok := recs[t.S]
 		return ok
 	}
+	// the 2^d squared vertex distances, for candidates that are written out instead of folded
+	var vertexPolys []*Term
+	for m := 0; m < 1<<uint(dim); m++ {
+		t := K(0)
+		for k := 0; k < dim; k++ {
+			e := lo(k)
+			if m>>uint(k)&1 == 1 {
+				e = hi(k)
+			}
+			t = Add(t, Mul(e, e))
+		}
+		vertexPolys = append(vertexPolys, t)
+	}
+	vertexOf := func(t *Term) int {
+		for i, vp := range vertexPolys {
+			if equalRat(t, vp) {
+				return i
+			}
+		}
+		return -1
+	}
 	nClass := 0
 	// position classes: per axis: 0 = inside slab, 1 = below (p left of Min: Min-p >= 0), 2 = above (Max-p <= 0)
 	cls := make([]int, dim)
@@ -228,6 +249,16 @@ func checkMinMaxDist2(ctx *Ctx, r *Report, fn *ssa.Function, dim int, key string
 		found := false
 		detail := ""
 		under := false
+		// are all corners among the explicit candidates active in this class?
+		vseen := map[int]bool{}
+		for _, c := range cands {
+			if !assume(c.cond, truth).IsZero() {
+				if vi := vertexOf(c.t); vi >= 0 {
+					vseen[vi] = true
+				}
+			}
+		}
+		allVerts := len(vseen) == len(vertexPolys)
 		for _, c := range cands {
 			if assume(c.cond, truth).IsZero() {
 				continue // not active in this class
@@ -235,6 +266,13 @@ func checkMinMaxDist2(ctx *Ctx, r *Report, fn *ssa.Function, dim int, key string
 			if isFold(c.t) {
 				if nIn == 0 {
 					found = true // nearest feature is a corner: the vertex minimum
+				}
+				continue
+			}
+			if vertexOf(c.t) >= 0 {
+				// a corner's squared distance is never below the true distance
+				if nIn == 0 && allVerts {
+					found = true
 				}
 				continue
 			}
@@ -287,8 +325,30 @@ func checkMinMaxDist2(ctx *Ctx, r *Report, fn *ssa.Function, dim int, key string
 		}
 	}
 	okMax := maxFold != nil && maxT.Op == "a" && recs[maxT.S] == maxFold
-	r.check("O2", key+"|maximum-is-the-farthest-corner", fn.Pos(), okMax, "max = fold of math.Max over the squared lengths of the translated corners; term: "+shortKey(maxT.Key(), 80))
-	r.check("O2", key+"|vertex-minimum-fold", fn.Pos(), minFold != nil, "min starts as the fold of math.Min over the squared lengths of the translated corners")
+	if !okMax {
+		// written out: max over exactly the 2^d corner distances (a leading 0 is harmless)
+		seen := map[int]bool{}
+		okMax = true
+		for _, lf := range leavesOf(maxT, "math.Max") {
+			if lf.IsZero() {
+				continue
+			}
+			vi := vertexOf(lf)
+			if vi < 0 {
+				okMax = false
+			}
+			seen[vi] = true
+		}
+		okMax = okMax && len(seen) == len(vertexPolys)
+	}
+	r.check("O2", key+"|maximum-is-the-farthest-corner", fn.Pos(), okMax, "max = math.Max over the squared lengths of all translated corners (folded or written out); term: "+shortKey(maxT.Key(), 80))
+	explicitMin := map[int]bool{}
+	for _, c := range cands {
+		if vi := vertexOf(c.t); vi >= 0 {
+			explicitMin[vi] = true
+		}
+	}
+	r.check("O2", key+"|vertex-minimum-fold", fn.Pos(), minFold != nil || len(explicitMin) == len(vertexPolys), "min starts as math.Min over the squared lengths of all translated corners (folded or written out)")
 	// the box is translated by -p and Vertices() lists all corners
 	vfn := ctx.ssaFunc("sdf", fmt.Sprintf("(Box%d).Vertices", dim))
 	okV := false
@@ -503,6 +563,15 @@ func checkUnionPrune(ctx *Ctx, r *Report) {
 					}
 				}
 				okSlow = all && strings.HasPrefix(es[0].S, "s.sdf[")
+			}
+		}
+	}
+	if !okSlow {
+		// the same fold with the first iteration peeled off / an explicit empty-list answer
+		if t, ok := res2.(*Term); ok {
+			if fi, _ := analyseFold(t); fi != nil && fi.firstOK && fi.X.Op == "call" && strings.Contains(fi.X.S, ".sdf[") && strings.HasSuffix(fi.X.S, ".Evaluate") &&
+				(fi.minFn == "MinFunc" || strings.HasSuffix(fi.minFn, ".min")) {
+				okSlow = true
 			}
 		}
 	}
